@@ -4,6 +4,7 @@ use vstd::prelude::*;
 verus! {
 //@include prelude/float_opaque.rs
 //@include prelude/vecmath_assumed.rs
+//@include prelude/std_assumed.rs
 //@include units/inc/status_items.rs
 
 //@enum file=src/solver/core/cones/supportedcone.rs name=SupportedConeT rules=R12 derive="Clone"
@@ -362,6 +363,63 @@ impl DefaultSolution<F> {
     ensures *final(self) == (DefaultSolution::<F> { solve_time: info.solve_time, ..*old(self) }),
 //@end
 }
+
+// ------------------------------------------------------------------ construction-time dimension check (C04)
+pub open spec fn dims_consistent(P: CscMatrix<F>, q: Seq<F>, A: CscMatrix<F>, b: Seq<F>, cones: Seq<SupportedConeT<F>>) -> bool {
+    &&& b.len() == A.m && cone_start(cones, cones.len() as int) == b.len()
+    &&& q.len() == A.n && q.len() == P.n && P.m == P.n
+}
+impl CscMatrix<F> {
+//@fn file=src/algebra/csc/core.rs in="ShapedMatrix for CscMatrix<T>" name=nrows rules=R1 ret=r
+//@contract
+    ensures r == self.m
+//@end
+//@fn file=src/algebra/csc/core.rs in="ShapedMatrix for CscMatrix<T>" name=ncols rules=R1 ret=r
+//@contract
+    ensures r == self.n
+//@end
+//@fn file=src/algebra/csc/core.rs in="ShapedMatrix for CscMatrix<T>" name=is_square rules=R1 ret=r
+//@contract
+    ensures r == (self.m == self.n)
+//@end
+}
+// (a) consistent dimensions are accepted: none of the documented panics fires
+//@fn file=src/solver/implementations/default/solver.rs name=_check_dimensions rules=R1,R24,R27
+//@contract
+    requires dims_consistent(*P, q@, *A, b@, cone_types@),
+        forall|k: int| 0 <= k < cone_types@.len() ==> nvars_spec(#[trigger] cone_types@[k]) <= usize::MAX,
+//@pre
+    proof { assert(b@.len() == b.len()); }
+//@iter 1
+it
+//@loop 1
+        invariant
+            it.seq().len() == cone_types@.len(), (forall|i: int| 0 <= i < cone_types@.len() ==> *(#[trigger] it.seq()[i]) == cone_types@[i]),
+            forall|k: int| 0 <= k < cone_types@.len() ==> nvars_spec(#[trigger] cone_types@[k]) <= usize::MAX,
+            cone_start(cone_types@, cone_types@.len() as int) <= usize::MAX,
+            acc == cone_start(cone_types@, it.index@ as int),
+//@body_start 1
+        proof { lemma_cone_start_mono(cone_types@, it.index@ + 1, cone_types@.len() as int); }
+//@end
+// (b) whenever the check returns, the dimensions are consistent: the asserts together are a complete test
+//@fn file=src/solver/implementations/default/solver.rs name=_check_dimensions as=_check_dimensions_returns rules=R1,R24,R26
+//@contract
+    requires
+        // the cone dimensions are summed in usize: ASSUMED not to wrap (a wrapped sum could equal m by accident)
+        cone_start(cone_types@, cone_types@.len() as int) <= usize::MAX,
+        forall|k: int| 0 <= k < cone_types@.len() ==> nvars_spec(#[trigger] cone_types@[k]) <= usize::MAX,
+    ensures dims_consistent(*P, q@, *A, b@, cone_types@),
+//@iter 1
+it
+//@loop 1
+        invariant
+            it.seq().len() == cone_types@.len(), (forall|i: int| 0 <= i < cone_types@.len() ==> *(#[trigger] it.seq()[i]) == cone_types@[i]),
+            forall|k: int| 0 <= k < cone_types@.len() ==> nvars_spec(#[trigger] cone_types@[k]) <= usize::MAX,
+            cone_start(cone_types@, cone_types@.len() as int) <= usize::MAX,
+            acc == cone_start(cone_types@, it.index@ as int),
+//@body_start 1
+        proof { lemma_cone_start_mono(cone_types@, it.index@ + 1, cone_types@.len() as int); }
+//@end
 
 } // verus!
 fn main() {}
